@@ -593,3 +593,233 @@ pub fn bind_c14(rep: &mut Report) {
 
 #[allow(dead_code)]
 pub fn unused(_: &Path) {}
+
+// ---------------------------------------------------------------------------------------
+// C03 / C13 / C19 / C06+C16: incremental decisions, names and watch mode on the real binary
+
+fn run_to_end(p: &Proj, args: &[&str]) -> (Option<i32>, String, bool) {
+    let c = p.spawn(args);
+    let e = wait_end(c, 30);
+    (e.code, e.stderr, e.timed_out)
+}
+
+/// second and third invocation over an untouched multi-project tree run no script of a target with inputs
+fn c03_untouched_tree() -> Option<(String, String)> {
+    let p = Proj::new("c03");
+    write(&p.root.join("src/a.txt"), b"a");
+    write(&p.root.join("pa/v.txt"), b"from-a");
+    write(&p.root.join("pb/v.txt"), b"from-b");
+    let q = |n: &str| p.quick(n);
+    p.write_yml("pa/zinoma.yml", &format!("name: pa\ntargets:\n  p:\n    build: '{}'\n    input: [{{paths: [v.txt]}}]\n    output: [{{cmd_stdout: \"cat v.txt\"}}]\n", q("pa-p")));
+    p.write_yml("pb/zinoma.yml", &format!("name: pb\ntargets:\n  p:\n    build: '{}'\n    input: [{{paths: [v.txt]}}]\n    output: [{{cmd_stdout: \"cat v.txt\"}}]\n", q("pb-p")));
+    p.write_yml(
+        "zinoma.yml",
+        &format!(
+            "imports:\n  pa: pa\n  pb: pb\ntargets:\n  use:\n    build: '{}'\n    input: [\"pa::p.output\", \"pb::p.output\", {{paths: [src]}}]\n    output: [{{paths: [out.txt]}}]\n  noinput:\n    build: '{}'\n  all:\n    dependencies: [use, noinput]\n",
+            p.script("use", &format!("echo built > out.txt; echo end use >> {}", p.trace.display())),
+            q("noinput")
+        ),
+    );
+    let mut runs = vec![];
+    for _ in 0..3 {
+        let before = p.trace_lines().len();
+        let (code, err, to) = run_to_end(&p, &["all"]);
+        if to || code != Some(0) {
+            p.cleanup();
+            return Some(("run failed".into(), format!("{:?} {}", code, err)));
+        }
+        let new: Vec<String> = p.trace_lines()[before..].iter().filter(|l| l.starts_with("start ")).cloned().collect();
+        runs.push(new);
+    }
+    let r = if runs[0].len() != 4 {
+        Some(("first run did not execute every target".to_string(), format!("{:?}", runs[0])))
+    } else if runs[1] != vec!["start noinput".to_string()] || runs[2] != vec!["start noinput".to_string()] {
+        Some(("an untouched tree was rebuilt (or a no-input target skipped)".to_string(), format!("second run {:?}, third run {:?} (expected only the target without input)", runs[1], runs[2])))
+    } else {
+        None
+    };
+    p.cleanup();
+    r
+}
+
+pub fn bind_c03(rep: &mut Report) {
+    let sc: Vec<Scenario> = vec![("untouched multi-project tree, same command text in two projects", c03_untouched_tree)];
+    run_scenarios(rep, "C03", sc);
+}
+
+/// producer in an imported project: editing its output re-runs the consumer, unchanged outputs skip it
+fn c13_behaviour() -> Option<(String, String)> {
+    let p = Proj::new("c13");
+    write(&p.root.join("lib/src/in.txt"), b"v1");
+    write(&p.root.join("own.txt"), b"own");
+    // identical relative path in both projects
+    write(&p.root.join("gen/o.txt"), b"consumer's own same-named file");
+    p.write_yml("lib/zinoma.yml", &format!("name: lib\ntargets:\n  p:\n    build: '{}'\n    input: [{{paths: [src]}}]\n    output: [{{paths: [gen], extensions: [txt]}}]\n", p.script("p", &format!("mkdir -p gen; cp src/in.txt gen/o.txt; echo x > gen/ignored.bin; echo end p >> {}", p.trace.display()))));
+    p.write_yml("zinoma.yml", &format!("imports:\n  lib: lib\ntargets:\n  c:\n    build: '{}'\n    input: [{{paths: [own.txt]}}, \"lib::p.output\"]\n    output: [{{paths: [c.out]}}]\n", p.script("c", &format!("cat lib/gen/o.txt > c.out; echo end c >> {}", p.trace.display()))));
+    let step = |what: &str, expect: &[&str]| -> Option<(String, String)> {
+        let before = p.trace_lines().len();
+        let (code, err, to) = run_to_end(&p, &["c"]);
+        if to || code != Some(0) {
+            return Some(("run failed".into(), format!("{}: {:?} {}", what, code, err)));
+        }
+        let new: Vec<String> = p.trace_lines()[before..].iter().filter(|l| l.starts_with("start ")).cloned().collect();
+        let want: Vec<String> = expect.iter().map(|s| format!("start {}", s)).collect();
+        if new != want {
+            return Some((format!("after {}: wrong set of scripts ran", what), format!("ran {:?}, expected {:?}", new, want)));
+        }
+        None
+    };
+    let mut r = step("first run", &["p", "c"]);
+    if r.is_none() {
+        r = step("nothing changed", &[]);
+    }
+    if r.is_none() {
+        // the consumer's own same-named file and a non-matching file in the producer's output directory do not count
+        write(&p.root.join("gen/o.txt"), b"edited, but not declared by anybody");
+        write(&p.root.join("lib/gen/ignored.bin"), b"edited, extension filtered out");
+        r = step("edits outside the inherited resources", &[]);
+    }
+    if r.is_none() {
+        write(&p.root.join("lib/gen/o.txt"), b"producer output edited by hand");
+        // the producer's output was tampered with: the producer re-runs (its output state differs) and restores
+        // the very content the consumer was built from, so the consumer is legitimately skipped
+        r = step("the producer's output file was edited by hand", &["p"]);
+    }
+    if r.is_none() {
+        write(&p.root.join("lib/src/in.txt"), b"v2");
+        r = step("the producer's input changed", &["p", "c"]);
+    }
+    p.cleanup();
+    r
+}
+
+pub fn bind_c13(rep: &mut Report) {
+    let sc: Vec<Scenario> = vec![("producer in an imported project, extension-filtered output, same relative paths", c13_behaviour)];
+    run_scenarios(rep, "C13", sc);
+}
+
+/// both spellings of a root target run it once; equal names in different projects do not interfere
+fn c19_spellings() -> Option<(String, String)> {
+    let p = Proj::new("c19");
+    p.write_yml("a/zinoma.yml", &format!("name: a\ntargets:\n  t:\n    dependencies: [u]\n    build: '{}'\n  u:\n    build: '{}'\n", p.quick("a::t"), p.quick("a::u")));
+    p.write_yml("zinoma.yml", &format!("name: r\nimports:\n  a: a\ntargets:\n  t:\n    dependencies: [u]\n    build: '{}'\n  u:\n    build: '{}'\n  both:\n    dependencies: [t, \"a::t\"]\n", p.quick("r::t"), p.quick("r::u")));
+    let check = |args: &[&str], want: &[&str]| -> Option<(String, String)> {
+        let _ = std::fs::remove_file(&p.trace);
+        let (code, err, to) = run_to_end(&p, args);
+        if to || code != Some(0) {
+            return Some(("run failed".into(), format!("{:?}: {:?} {}", args, code, err)));
+        }
+        let mut got: Vec<String> = p.trace_lines().into_iter().filter(|l| l.starts_with("start ")).map(|l| l[6..].to_string()).collect();
+        got.sort();
+        let mut w: Vec<String> = want.iter().map(|s| s.to_string()).collect();
+        w.sort();
+        if got != w {
+            return Some((format!("zinoma {}: wrong targets ran", args.join(" ")), format!("ran {:?}, expected {:?}", got, w)));
+        }
+        None
+    };
+    let mut r = check(&["t", "r::t"], &["r::t", "r::u"]);
+    if r.is_none() {
+        r = check(&["a::t"], &["a::t", "a::u"]);
+    }
+    if r.is_none() {
+        r = check(&["both"], &["r::t", "r::u", "a::t", "a::u"]);
+    }
+    if r.is_none() {
+        // refused spellings: nothing runs
+        for bad in [vec!["a::nope"], vec!["zz::t"], vec!["u", "nope"]] {
+            let _ = std::fs::remove_file(&p.trace);
+            let (code, _err, to) = run_to_end(&p, &bad);
+            if to || code == Some(0) || !p.trace_lines().is_empty() {
+                r = Some(("unknown spelling not refused up front".to_string(), format!("{:?}: exit {:?}, trace {:?}", bad, code, p.trace_lines())));
+                break;
+            }
+        }
+    }
+    p.cleanup();
+    r
+}
+
+pub fn bind_c19(rep: &mut Report) {
+    let sc: Vec<Scenario> = vec![("named root importing a project with the same target names", c19_spellings)];
+    run_scenarios(rep, "C19", sc);
+}
+
+/// watch mode with the real watcher and the real binary: clean tree, change while idle, change during the build,
+/// no rebuild loop from zinoma's own state writes
+fn c06_watch_real() -> Option<(String, String)> {
+    let p = Proj::new("c06");
+    write(&p.root.join("src/in.txt"), b"v1");
+    // the producer takes a moment so that an edit can land while it runs
+    let prod = format!("cat src/in.txt > /dev/null; V=$(cat src/in.txt); sleep 0.4; mkdir -p gen; echo \"$V\" > gen/o.txt; echo \"end p $V\" >> {}", p.trace.display());
+    let cons = format!("V=$(cat gen/o.txt); echo \"$V\" > final.txt; echo \"end c $V\" >> {}", p.trace.display());
+    p.write_yml("zinoma.yml", &format!("targets:\n  p:\n    build: '{}'\n    input: [{{paths: [src]}}]\n    output: [{{paths: [gen]}}]\n  c:\n    build: '{}'\n    input: [p.output]\n    output: [{{paths: [final.txt]}}]\n", p.script("p", &prod), p.script("c", &cons)));
+    let mut c = p.spawn(&["--watch", "c"]);
+    let fail = |c: Child, p: &Proj, fp: &str, d: String| -> Option<(String, String)> {
+        let e = wait_end_kill(c);
+        let r = Some((fp.to_string(), format!("{} ; trace {:?} ; stderr tail: {}", d, p.trace_lines(), e)));
+        p.cleanup();
+        r
+    };
+    // clean tree: gen/ does not exist when watching begins
+    if !p.wait_line("end c v1", 30) {
+        return fail(c, &p, "watch mode did not bring a clean tree up to date", String::new());
+    }
+    if !alive(&mut c) {
+        return fail(c, &p, "watch run ended by itself", String::new());
+    }
+    // change while idle
+    std::thread::sleep(Duration::from_millis(300));
+    write(&p.root.join("src/in.txt"), b"v2");
+    if !p.wait_line("end c v2", 30) {
+        return fail(c, &p, "change made while idle never reached the consumer", String::new());
+    }
+    // change while the producer is building v3: the last change (v4) must end up built
+    write(&p.root.join("src/in.txt"), b"v3");
+    if !p.wait_line("start p", 10) {
+        return fail(c, &p, "set-up", "producer did not restart".into());
+    }
+    let starts = p.trace_lines().iter().filter(|l| *l == "start p").count();
+    let t0 = Instant::now();
+    while p.trace_lines().iter().filter(|l| *l == "start p").count() < starts.max(3) && t0.elapsed() < Duration::from_secs(10) {
+        std::thread::sleep(Duration::from_millis(5));
+    }
+    std::thread::sleep(Duration::from_millis(100));
+    write(&p.root.join("src/in.txt"), b"v4");
+    if !p.wait_line("end c v4", 40) {
+        return fail(c, &p, "the last change (made while the producer was building) never ended up built", String::new());
+    }
+    // quiescence: zinoma's own state writes must not retrigger anything
+    let n = p.trace_lines().len();
+    std::thread::sleep(Duration::from_millis(1500));
+    let n2 = p.trace_lines().len();
+    if n2 != n {
+        return fail(c, &p, "rebuild loop", format!("{} more trace lines appeared without any edit", n2 - n));
+    }
+    let fin = std::fs::read_to_string(p.root.join("final.txt")).unwrap_or_default();
+    signal(&c, libc::SIGINT);
+    let e = wait_end(c, 15);
+    let left = p.leftovers();
+    let r = if fin.trim() != "v4" {
+        Some(("final output is stale".to_string(), format!("final.txt = {:?}", fin)))
+    } else if e.timed_out {
+        Some(("SIGINT not honoured".to_string(), String::new()))
+    } else if !left.is_empty() {
+        Some(("process left behind".to_string(), format!("{:?}", left)))
+    } else {
+        None
+    };
+    p.cleanup();
+    r
+}
+
+fn wait_end_kill(mut c: Child) -> String {
+    let _ = c.kill();
+    let e = wait_end(c, 5);
+    e.stderr.lines().rev().take(4).collect::<Vec<_>>().join(" | ")
+}
+
+pub fn bind_c06(rep: &mut Report) {
+    let sc: Vec<Scenario> = vec![("producer->consumer, real watcher: clean tree, edit while idle, edit during a build, no rebuild loop", c06_watch_real)];
+    run_scenarios(rep, "C06", sc);
+}
